@@ -63,7 +63,7 @@ class St:
 
     def __init__(self, n, sel, named, same, selty, selval, generic=False, raw=False):
         self.n, self.sel, self.named, self.same, self.generic = n, sel, named, same, generic
-        pool = ["zeta", "_under", "alpha"]   # declaration order is not alphabetical order; a name starting with `_`
+        pool = ["zeta", "_under", "alpha", "mid"]   # declaration order is not alphabetical order; a name starting with `_`
         self.names = [("r#type" if (raw and i == sel) else pool[i]) if named else str(i) for i in range(n)]
         self.selty, self.selval = selty, selval
         self.tys = []
@@ -128,7 +128,7 @@ pub fn run(r: &mut R) {
         src = "#[derive(%s)] %s" % (", ".join(derives), " ".join(st.decl(sattrs, fattrs).split()))
         cases.append(Case("c%d" % len(cases), mod, meta={"derive": derive_desc, "src": src}))
 
-    nmax = 3
+    nmax = 4 if thorough else 3
     shapes = []
     for n in range(1, nmax + 1):
         for sel in range(n):
@@ -354,7 +354,7 @@ pub fn run(r: &mut R) {
 def run(chk, tier):
     thorough = tier == "thorough"
     cases = gen_cases(thorough)
-    chk.part("space", fields="1..3", selected="every position", selection=["implicit", "#[attr] on the field", "#[attr(ignore)] on the others"],
+    chk.part("space", fields="1..4" if thorough else "1..3", selected="every position", selection=["implicit", "#[attr] on the field", "#[attr(ignore)] on the others"],
              typings=["other fields of a different type", "all fields of the selected field's type"],
              derives=["Deref", "DerefMut", "AsRef", "AsMut", "Index", "IndexMut", "IntoIterator"],
              modes=["direct", "forward", "listed types (own type literally / via alias / foreign)", "generic field type", "owned/ref/ref_mut"],
